@@ -109,6 +109,19 @@ def convert_cases(ev, scratch, ngraphs):
                 continue
             extra = ["-minValue=3", "-maxValue=7"] if mode == "gr2randomweightgr" else []
             cases.append((mode, ["-" + mode, "-edgeType=" + et] + extra + [base + ".gr", base + "." + mode], base + "." + mode, None))
+        kdeg = rng.randrange(0, 4)
+        cases.append(("gr2lowdegreegr", ["-gr2lowdegreegr", "-edgeType=" + et, "-maxDegree=%d" % kdeg, base + ".gr", base + ".low"], base + ".low", None))
+        cases.append(("gr2sorteddegreegr", ["-gr2sorteddegreegr", "-edgeType=" + et, "-outputNodePermutation=" + base + ".perm", base + ".gr", base + ".sdeg"], base + ".sdeg", None))
+        if sz:
+            cases.append(("gr2mtx", ["-gr2mtx", "-edgeType=" + et, base + ".gr", base + ".gr2mtx"], base + ".gr2mtx", None))
+            with open(base + ".mtx.txt", "w") as f:
+                f.write("%%MatrixMarket matrix coordinate real general\n% generated\n")
+                f.write("%d %d %d\n" % (n, n, m))
+                qs = [[(s_, d, w) for d, w in a] for s_, a in enumerate(adj)]
+                while any(qs):
+                    s_ = rng.choice([i for i, q in enumerate(qs) if q]); s_, d, w = qs[s_].pop(0)
+                    f.write("%d %d %d\n" % (s_ + 1, d + 1, w))
+            cases.append(("mtx2gr", ["-mtx2gr", "-edgeType=" + et, base + ".mtx.txt", base + ".mtx2gr"], base + ".mtx2gr", None))
         for mode in ["gr2edgelist", "gr2edgelist1ind", "gr2dimacs"]:
             if sz == 0 and mode in NEEDS_DATA:
                 continue
@@ -141,6 +154,10 @@ def convert_cases(ev, scratch, ngraphs):
                     r["list"] = parse_list(outp)[0]
                 elif mode == "gr2dimacs":
                     r["list"], r["n"], r["m"] = parse_list(outp, dimacs=True)
+                elif mode == "gr2mtx":
+                    rows = [l.split() for l in open(outp) if l.strip() and not l.startswith("%")]
+                    r["n"], r["m"] = int(rows[0][0]), int(rows[0][2])
+                    r["list"] = [[int(t[0]), int(t[1]), int(float(t[2]))] for t in rows[1:]]
                 else:
                     g = grfile.read_gr(outp, big_endian_data=(mode == "gr2biggr"))
                     if g["trailing"] != 0:
@@ -148,6 +165,13 @@ def convert_cases(ev, scratch, ngraphs):
                     r["adj"], r["n"] = g["adj"], g["n"]
                     if mode == "gr2randomweightgr":
                         r["lo"], r["hi"] = 3, 7
+                    if mode == "gr2lowdegreegr":
+                        r["maxdeg"] = int([a for a in args if a.startswith("-maxDegree=")][0].split("=")[1])
+                    if mode == "gr2sorteddegreegr":
+                        pm = {}
+                        for l in open([a for a in args if a.startswith("-outputNodePermutation=")][0].split("=", 1)[1]):
+                            o, nw = l.strip().split(","); pm[int(o)] = int(nw)
+                        r["perm"] = [pm[i] for i in range(len(pm))]
                 if lines is not None:
                     r["lines"] = lines
             except Exception as e:
@@ -217,8 +241,8 @@ def run(ev, vd):
     ev.assumptions += [
         "node ids and weights stay below 2^31 (TLC integers); 'very large ids' are not exercised",
         "OCFileGraph is exercised on version 1 files only (it asserts version 1)",
-        "conversions covered: edgelist2gr, csv2gr, dimacs2gr, gr2edgelist, gr2edgelist1ind, gr2dimacs, gr2tgr, gr2sgr, gr2cgr, gr2sorteddstgr, "
-        "gr2sortedweightgr, gr2randomweightgr, gr2biggr; the remaining modes (mtx, pbbs, rmat, partitioning, degree sorting, ring/tree overlays, "
+        "conversions covered: edgelist2gr, csv2gr, dimacs2gr, mtx2gr, gr2edgelist, gr2edgelist1ind, gr2dimacs, gr2mtx, gr2tgr, gr2sgr, gr2cgr, gr2sorteddstgr, "
+        "gr2sortedweightgr, gr2randomweightgr, gr2biggr, gr2lowdegreegr, gr2sorteddegreegr; the remaining modes (pbbs, rmat, partitioning, other orderings, ring/tree overlays, "
         "graph-convert-huge, graph-remap, dist-graph-convert) are not",
         "FileGraphWriter can only produce version 2 for more than 2^32 nodes; version 2 writing is covered through toFile of a version 2 graph"]
     ev.cov["engines"] = ["free", "tv"]
